@@ -154,11 +154,19 @@ func throwAway(g bhGenesis, variant int) (msg string) {
 	g.Window += 2
 	he := uint32(7 + variant)
 	g.Hist = &he
+	// its own fee market: a tiny base fee and a first block above the gas target (1.9M declared gas, target 1.5M), so that
+	// the BeginBlock of its second block takes the minimum step of the base-fee increase in this process
+	g.Fee = &bhFeeMarket{BaseFee: fmt.Sprint(2 + ((variant%6)+6)%6), Denom: 8, Elasticity: 2, MinGasMult: "1", MaxGas: 3_000_000}
 	h := newHistRun(g, replicaOpts[((variant%len(replicaOpts))+len(replicaOpts))%len(replicaOpts)])
-	b := bhBlock{DT: 3, Proposer: variant, Txs: []bhTx{{K: "probedeploy", F: variant % bhNU}, {K: "send", F: 1, T: 2, A: "12345"}}}
-	h.runBlock(&b, nil, &stepHooks{TweakRaw: tweakHeader})
-	if h.Dead != "" {
-		return "throw-away application: " + h.Dead
+	for _, b := range []bhBlock{
+		{DT: 3, Proposer: variant, Txs: []bhTx{{K: "probedeploy", F: ((variant % bhNU) + bhNU) % bhNU}, {K: "send", F: 1, T: 2, A: "12345"}}},
+		{DT: 2, Proposer: variant + 1, Txs: []bhTx{}},
+	} {
+		b := b
+		h.runBlock(&b, nil, &stepHooks{TweakRaw: tweakHeader})
+		if h.Dead != "" {
+			return "throw-away application: " + h.Dead
+		}
 	}
 	return ""
 }
@@ -471,6 +479,7 @@ type procGen struct {
 	calls   map[int][]probeCall // block index -> probe transactions
 	pre     map[int][]bhPerturb // block index -> perturbations before it
 	shape   string
+	feeShape string // scripted perturbation of a fee-market history (betweenHeavy)
 }
 
 var histEntriesChoices = []uint32{0, 1, 2, 3, 3, 3, 5, 10000, 10000}
@@ -541,6 +550,32 @@ func newProcGen(r *Rng, nb, nrep int) *procGen {
 		}
 	}
 	return g
+}
+
+// betweenHeavy (fee-market regime, feeregime.go): the base fee moves in the BeginBlock after a heavy block; between the
+// first two of them something that is not a block input happens to one replica -- a restart from the database, or a
+// throw-away application that takes a minimum step of its own in the same process.
+func (g *procGen) betweenHeavy(heavy map[int]bool) {
+	var hs []int
+	for b := 0; b < g.nb; b++ {
+		if heavy[b] {
+			hs = append(hs, b)
+		}
+	}
+	if len(hs) < 2 {
+		return
+	}
+	r := g.r
+	at := hs[0] + 2 + r.Intn(hs[1]-hs[0]) // before block index at: hs[0]+2 <= at <= hs[1]+1
+	if at >= g.nb {
+		at = g.nb - 1
+	}
+	k := "restart"
+	if r.Chance(30) {
+		k = "construct"
+	}
+	g.pre[at] = append(g.pre[at], bhPerturb{Rep: r.Intn(g.nrep), K: k, N: int64(r.Intn(30))})
+	g.feeShape = k + "-between-heavy-blocks"
 }
 
 // some picks k heights from the pool.
